@@ -169,7 +169,10 @@ def _joins():
         out.append((f"SELECT t.a FROM t {k1} (u {k2} v{c2}){c1}".replace(" , ", ", "), tg + ("join2.nested",)))
     froms = ["t AS x", "t x", "(SELECT a FROM t) AS x", "(SELECT a FROM t) AS x(c)", "t TABLESAMPLE (10 PERCENT)", "UNNEST(arr) AS x", "UNNEST(arr) WITH ORDINALITY AS x(v, i)", "(VALUES (1, 2), (3, 4)) AS x(a, b)",
              "LATERAL (SELECT 1) AS x", "db.t", "cat.db.t", "t PIVOT(SUM(b) FOR a IN ('x', 'y'))", "t UNPIVOT(v FOR k IN (a, b))", "generate_series(1, 3) AS x", "t FOR SYSTEM_TIME AS OF '2020-01-01'", "ONLY t",
-             "t, u", "(t)", "(t JOIN u ON t.a = u.a)", "t AS x TABLESAMPLE BERNOULLI (5)", "t MATCH_RECOGNIZE (PARTITION BY a ORDER BY b MEASURES FIRST(b) AS fb PATTERN (A B*) DEFINE B AS b > 1)"]
+             "t, u", "(t)", "(t JOIN u ON t.a = u.a)", "t AS x TABLESAMPLE BERNOULLI (5)", "t MATCH_RECOGNIZE (PARTITION BY a ORDER BY b MEASURES FIRST(b) AS fb PATTERN (A B*) DEFINE B AS b > 1)",
+             # (appended: the tags are positional) pivots with several aggregations, some unaliased, over qualified columns
+             "t PIVOT(SUM(t.b), AVG(t.c) AS q FOR a IN ('x' AS x, 'y' AS y))", "t AS s PIVOT(SUM(s.b), MAX(s.c) FOR a IN ('x' AS x))",
+             "t PIVOT(SUM(b) AS sb, COUNT(*) FOR a IN (1 AS one, 2 AS two))"]
     for i, f in enumerate(froms):
         out.append((f"SELECT * FROM {f}", ("from.%d" % i,)))
         out.append((f"SELECT * FROM {f} WHERE 1 = 1 ORDER BY 1 LIMIT 1", ("from.%d" % i, "from.with_tail")))
@@ -195,7 +198,9 @@ def _forms():
                  "a NOTNULL", "a IS NOT NULL", "NOT a IS NULL", "a <> b", "a != b", "a == b", "s LIKE 'a' OR s LIKE 'b' AND a", "a IN (1)", "a IN ()", "s IS JSON", "a @> b", "a <@ b", "a && b"],
         "tz": ["ts AT TIME ZONE 'UTC'", "ts AT TIME ZONE 'UTC' AT TIME ZONE 'x'", "CAST(ts AS DATE) AT TIME ZONE 'UTC'", "s COLLATE \"C\"", "s COLLATE utf8_bin", "s COLLATE \"C\" = 'a'"],
         "nested": ["ARRAY[1, 2]", "[1, 2]", "ARRAY(SELECT a FROM u)", "{'a': 1}", "STRUCT(1 AS a)", "MAP(ARRAY['a'], ARRAY[1])", "ROW(1, 2)", "(1, 2)", "arr[1:2]", "arr[1]", "m['k']", "s.f.g",
-                   "a -> 'k'", "a ->> 'k'", "a #> '{a}'", "a ? 'k'", "a || b", "arr[1][2]", "(arr)[1]", "ARRAY[1, 2][1]", "ARRAY[[1], [2]]", "STRUCT(1, 2).a", "a -> 'k' ->> 'j'", "x:y.z", "x:y::INT"],
+                   "a -> 'k'", "a ->> 'k'", "a #> '{a}'", "a ? 'k'", "a || b", "arr[1][2]", "(arr)[1]", "ARRAY[1, 2][1]", "ARRAY[[1], [2]]", "STRUCT(1, 2).a", "a -> 'k' ->> 'j'", "x:y.z", "x:y::INT",
+                   # subscripts that are zero / negative / computed (the parser shifts integer subscripts by the dialect's index base, the generator shifts back)
+                   "arr[0]", "arr[-1]", "arr[-1][0]", "ARRAY[1, 2][-1]", "arr[2 - 1]", "arr[-a]", "m['k'][-2]", "arr[0:1]", "arr[-2:-1]"],
         "call": ["f(a => 1)", "f(a := 1)", "GENERATE_SERIES(1, 3)", "COALESCE(a)", "IF(a, 1, 2)", "IIF(a, 1, 2)", "NULLIF(a, 1)", "GREATEST(a, b)", "LEAST(a, b, 1)", "DATE_ADD(d, INTERVAL 1 DAY)",
                  "DATEDIFF(day, d, d2)", "DATE_DIFF(d, d2, DAY)", "TO_CHAR(ts, 'YYYY')", "CONCAT(a, b)", "CONCAT_WS(',', a, b)", "CURRENT_TIMESTAMP(3)", "CURRENT_TIMESTAMP", "LOCALTIME",
                  "NOW()", "COUNT(*)", "COUNT(DISTINCT a, b)", "ROUND(a, 2)", "LOG(2, a)", "LOG(a)", "LN(a)", "POWER(a, 2)", "SPLIT_PART(s, ',', 1)", "REGEXP_REPLACE(s, 'a', 'b', 'g')",
